@@ -131,7 +131,7 @@ def has_dots(text):
     return any(seg in (".", "..") for seg in text.split("/"))
 
 
-BASE_PATHS = {"truediv": "/d/e", "truediv_noauth": "d/e", "joinpath1": "/d", "joinpath2": "/d", "joinpath2b": ""}
+BASE_PATHS = {"truediv": "/d/e", "truediv_noauth": "d/e", "truediv_file": "/d/e", "joinpath1": "/d", "joinpath2": "/d", "joinpath2b": ""}
 
 
 def case_readback(acc, rname, w):
